@@ -232,6 +232,15 @@ pub struct CheckResult {
     pub assumptions: Vec<String>,
 }
 
+/// Where evidence/, replays/ and known-replays/ are written: /verif, unless TRUSIM_OUT redirects
+/// them (used when a check is pointed at a scratch copy of the repository, e.g. a seeded change).
+fn out_dir(ctx: &Ctx) -> std::path::PathBuf {
+    match std::env::var("TRUSIM_OUT") {
+        Ok(d) if !d.is_empty() => std::path::PathBuf::from(d),
+        _ => ctx.verif.clone(),
+    }
+}
+
 fn class_slug(class: &str) -> String {
     format!("{:016x}", rng::hash_bytes(class.as_bytes()))
 }
@@ -247,7 +256,7 @@ pub fn finish(ctx: &Ctx, mut res: CheckResult, wall_s: f64) -> i32 {
     let mut n_violations = 0;
     let mut n_known = 0;
     let mut reported: Vec<Value> = vec![];
-    let replay_dir = ctx.verif.join("replays");
+    let replay_dir = out_dir(ctx).join("replays");
     let _ = std::fs::create_dir_all(&replay_dir);
     let max_min = 12; // minimise at most this many distinct new classes per run
     let mut minimised_n = 0;
@@ -258,7 +267,7 @@ pub fn finish(ctx: &Ctx, mut res: CheckResult, wall_s: f64) -> i32 {
             n_known += 1;
             reported.push(json!({"class": class, "known": true, "occurrences": fs.len()}));
             // keep a replayable scenario for every known finding (written once, then left alone)
-            let kdir = ctx.verif.join("known-replays");
+            let kdir = out_dir(ctx).join("known-replays");
             let _ = std::fs::create_dir_all(&kdir);
             let kpath = kdir.join(format!("{}-{}.json", res.property, class_slug(class)));
             if !kpath.exists() {
@@ -337,7 +346,7 @@ pub fn finish(ctx: &Ctx, mut res: CheckResult, wall_s: f64) -> i32 {
         "wall_s": wall_s,
         "violations": n_violations,
     });
-    let evdir = ctx.verif.join("evidence");
+    let evdir = out_dir(ctx).join("evidence");
     let _ = std::fs::create_dir_all(&evdir);
     std::fs::write(evdir.join(format!("{}.json", res.property)), serde_json::to_vec_pretty(&ev).unwrap()).expect("write evidence");
 
